@@ -129,6 +129,8 @@ def pos_table(run, model, rule="C05.pos-table", rule_po="C05.posonly"):
         ok = t is not None and t[0] in ("call", "display")
         run.check(ok, rule_po, ck.fi.qual, "passes the set of positional-only names to the resolver", "the wrapper does not tell the resolver which parameters are positional-only: a keyword argument of the same name (captured by **kwargs) overrides the parameter's value seen by the contracts", ck.loc(ck.resolver["node"]), None, first_line(ck.resolver["node"].stmt))
     # ---- the resolver skips positional-only names when copying keywords
+    from ..decomp import loops_view
+    resolver = loops_view(model, resolver)  # ``mapping.update(<pairs>)`` read as the loop of stores it is
     fl = get_flow(model, resolver)
     run.saw(fl)
     kw_p = ("param", resolver.params[3]) if len(resolver.params) > 3 else None
@@ -183,13 +185,16 @@ def order_identity(run, model, rule_order="C05.order", rule_id="C05.identity"):
             run.check(badn is None, rule_id, ck.fi.qual + ":args-untouched", "*args/**kwargs are neither rebound nor mutated before the body receives them", "the wrapper %s its *args/**kwargs" % ("mutates" if muts else "rebinds"), ck.loc(badn) if badn is not None else ck.fi.loc(), None, first_line(badn.stmt) if badn is not None else None)
     if resolver is None:
         return
-    fl = get_flow(model, resolver)
-    run.saw(fl)
+    from ..decomp import loops_view
     summ = Summaries(model)
     mp = meta.mutated_params(model, resolver, summ)
+    rt_plain = summ.return_term(resolver)
+    resolver = loops_view(model, resolver)
+    fl = get_flow(model, resolver)
+    run.saw(fl)
     run.check(not (mp & {"args", "kwargs", "kwdefaults", "param_names"}), rule_id, resolver.qual + ":no-mutation", "the resolver mutates none of its inputs", "the resolver mutates its parameter(s) %s: the body would receive changed arguments" % sorted(mp), resolver.loc())
     # the mapping: {"_ARGS": args, "_KWARGS": kwargs} then defaults, positionals, keywords
-    rt = summ.return_term(resolver)
+    rt = rt_plain
     init_ok = rt[0] == "display" and rt[1] == "dict" and dict((k[1], v) for k, v in rt[2] if k[0] == "const") == {"'_ARGS'": ("param", "args"), "'_KWARGS'": ("param", "kwargs")}
     run.check(init_ok, rule_id, resolver.qual + ":placeholders", "_ARGS is the tuple of positional arguments and _KWARGS the dict of keyword arguments of the call (a fresh mapping per call)", "the mapping starts as %s" % show(strip_sites(rt), 100), resolver.loc())
     heads = sorted([n for n in fl.cfg.nodes if n.kind == "next"], key=lambda n: n.lineno)
